@@ -89,7 +89,7 @@ CHECKS = {
         note="Constant chunk size; release build; the generator repeats a block of well-formed lines (bounded item size).",
         technique="TLA+ invariant of the reader model (TLC) + monitored streaming runs validated against StreamOk"),
     "C08": dict(
-        category="exploration",
+        category="model_checking",
         text="Sentence 2: a corruption catalogue (garbage token, overflowing number, out-of-range literal at a known span of "
              "a well-formed cnf/wcnf/gcnf/log/aag/btor2 document) whose reported line/column must lie on the corrupted token; "
              "for the DIMACS family the Dimacs machine fixes every error location exactly. Sentence 1 is a ParserContract step condition evaluated at every give_up and line_at_offset event of every "
@@ -98,7 +98,8 @@ CHECKS = {
         design_ref="DESIGN.md §5 C08",
         note="Binary AIGER: the and-gate section is binary, 0x0A there is data; the line table is the parser's own (DESIGN §7). "
              "Sentence 2 (corruption catalogue) is decided by the format machines where built.",
-        technique="trace validation of line bookkeeping and error locations against ParserContract"),
+        technique="MC_Dimacs (error located inside the input for every short document) + trace validation of line bookkeeping, "
+                  "error locations and a corruption catalogue against ParserContract / the Dimacs machine"),
     "C09": dict(
         category="model_checking",
         text="Reader clause: ReaderAbs enables a source read only while the pending request is unsatisfied and the source "
